@@ -8,7 +8,7 @@ CLAIMS = {
  "C07": ("Coq theorems for all sizes/index patterns: the nine format conversions, copies, the three transposes (dimensions exchanged), sort, "
          "move_diag, remove_duplicates (drop of sums below 1e-16 only) and add/subtract preserve / transpose / add the represented operator `den`; "
          "BSR->CSR represents the sum of the stored blocks when the dropped scalars are exact zeros; tie: extracted model vs C++ classes on generated chains of operations (per-line multisets) + dense image of the implementation's output.",
-         NOTE + "Distributed counterparts: compared through the dense image only (no theorem yet). Block formats: BSR->CSR proved and tied; block transposes and BSC/BSR/BCOO inter-conversions exercised only through the block products of C02.",
+         NOTE + "Distributed counterparts (Dist/ParConv.v): conversions between ParCOO/ParCSR/ParCSC, ParCSRMatrix::transpose (reverse exchange of packed columns + finalize) and add/subtract with different off-process column maps are modelled over the list of rank states, proved (C07_par_conversions, C07_par_transpose, C07_par_add_subtract) and tied through the local blocks of the result, storage order included; distributed block forms: dense image only. Block formats BCOO/BSR/BSC: conversions, sort, move_diag, transposes, remove_duplicates proved by slice naturality and tied by chains of operations.",
          "Coq proof over Gallina model + model/implementation correspondence"),
  "C02": ("Coq theorems: every SpMV kernel (b=Ax, b+=Ax, b-=Ax, r=b-Ax, A^T variants) of COO/CSR/CSC equals the product with the represented operator for all "
          "matrices/vectors; distributed A x, b + A x, b - A x: each rank's rows equal the rows of the global operator gden applied to the global vector, for every list of rank "
